@@ -89,6 +89,7 @@ typedef std::vector<std::string> Toks;
 #include "drv_dec.inc"
 #include "drv_val.inc"
 #include "drv_exp.inc"
+#include "drv_blk.inc"
 #include "drv_more.inc"
 
 int main(int argc, char** argv) {
@@ -102,12 +103,14 @@ int main(int argc, char** argv) {
         const std::string& c = t[0];
         try {
             if (c == "CASE") { reset_all(); OUT("CASE %s", t.size() > 1 ? t[1].c_str() : ""); }
+            else if (c == "M") OUT("mark %s", t.size() > 1 ? t[1].c_str() : "");
             else if (c == "E") cmd_enc(t);
             else if (c == "T") cmd_time(t);
             else if (c == "D") cmd_dec(t);
             else if (c == "S") cmd_struct(t);
             else if (c == "X") cmd_exp(t);
             else if (c == "F") cmd_file(t);
+            else if (c == "B") cmd_blk(t);
             else if (!cmd_more(t)) OUT("? unknown command %s", c.c_str());
         }
         catch (std::exception& e) { OUT("throw %s", classify(e)); }
